@@ -82,7 +82,7 @@ def run_task(task):
         res = E.run_execution(main, strat, granularity=task.get("gran", "sync"),
                               visible=o.get("visible"), max_steps=o.get("max_steps", 30000),
                               horizon=o.get("horizon", 10 ** 8), ops_log=o.get("ops_log", False),
-                              setup=o.get("setup"))
+                              setup=o.get("setup"), lock_log=bool(task.get("lock_log")))
         events = list(res.events)
         # fold the engine's classification into the trace so that TLC judges it too
         for (name, kind, what) in res.blocked:
@@ -96,6 +96,10 @@ def run_task(task):
                "first_mismatch": getattr(strat, "first_mismatch", None)}
         if o.get("ops_log"):
             out["ops"] = res.ops
+        if task.get("lock_log") and res.locks is not None:
+            from mxv import lockprogs
+            out["lockcases"] = lockprogs.cases_of(res.locks)
+            out["lock_events"] = len(res.locks)
         post = o.get("post")
         if post:
             out["post"] = post(res)
@@ -247,6 +251,60 @@ class Check(object):
             if v != "ok":
                 self._judge(t, r, v, step, trace_module)
         return list(zip(good, verdicts))
+
+    def lock_cycles(self, pairs, trace_module, per_case=6, patience=600):
+        """Recorded lock programs -> spec/LockCases.tla -> candidate cycles -> steered real executions.
+        pairs: what run_and_validate returned for tasks run with lock_log.  Every distinct case (pair of lock
+        programs from two threads of one execution) is interleaved exhaustively by TLC; for every case TLC finds
+        stuck, the executions it came from are re-run under strategies.Steer, and those re-runs are judged by the
+        contract like any other execution: only a deadlock that really happens in the code is a violation."""
+        from . import tlc, lockprogs
+        cases, sources = {}, {}
+        nev = 0
+        for (t, r), _ in pairs:
+            nev += r.get("lock_events") or 0
+            for c in r.get("lockcases") or []:
+                k = lockprogs.case_key(c)
+                if k not in cases:
+                    cases[k] = c
+                src = sources.setdefault(k, [])
+                if len(src) < per_case:
+                    src.append(t)
+        keys = sorted(cases)
+        progs = [[lockprogs.program((tuple(p[0]), p[1])) for p in cases[k]["pats"]] for k in keys]
+        cycles, gen, dist, wall = tlc.lock_cases(progs)
+        self.states += dist
+        self.transitions += gen
+        self.mc_runs.append({"module": "LockCases", "cfg": "LockCases.cfg", "distinct": dist, "generated": gen,
+                             "depth": 0, "wall_s": round(wall, 2), "violated": None})
+        steer = []
+        cand = []
+        for ci, poss in sorted(cycles.items()):
+            c = cases[keys[ci]]
+            gates = []
+            for pos in poss:
+                for g in lockprogs.gates_of(c, pos):
+                    if g not in gates:
+                        gates.append(g)
+            cand.append({"level": c["level"], "patterns": c["pats"], "threads": c["threads"], "gates": gates})
+            for t in sources[keys[ci]]:
+                t2 = dict(t)
+                t2["strat"] = ["steer", gates, patience, t["strat"]]
+                t2["facts"] = dict(t.get("facts") or {}, steered=True)
+                t2.pop("lock_log", None)
+                steer.append(t2)
+        before = len(self.violations)
+        if steer:
+            self.run_and_validate(steer, trace_module, nontrivial=lambda t, r: True)
+        info = self.notes.setdefault("lock_programs", {"lock_events": 0, "distinct_cases": 0, "candidate_cycles": 0,
+                                                       "steered_executions": 0, "realised": 0, "candidates": []})
+        info["lock_events"] += nev
+        info["distinct_cases"] += len(keys)
+        info["candidate_cycles"] += len(cand)
+        info["steered_executions"] += len(steer)
+        info["realised"] += len(self.violations) - before
+        info["candidates"] = (info["candidates"] + cand)[:12]
+        return cand
 
     def replay_behaviours(self, behs, convert, project, trace_module, unordered=()):
         """spec -> code: each TLC behaviour of an implementation spec becomes (scenario, schedule); the real
